@@ -1300,7 +1300,9 @@ pub fn check(id: &str, tier: &str) -> i32 {
         let mut rp = rp.clone();
         // a violation that disappears when all binders get unique names is the name-capture defect
         let mut class = rp.class.clone();
-        if let Some(tw) = &rp.unique_twin {
+        // (a front-end disagreement depends on the spelling itself and is reported as it is)
+        if let Some(tw) = rp.unique_twin.clone().filter(|_| rp.class != "FrontEnd") {
+            let tw = &tw;
             let mut t = rp.clone();
             t.source = tw.clone();
             t.unique_twin = None;
